@@ -21,6 +21,10 @@ type ClientMon struct {
 	// counts of subscribe/get requests that were still outstanding
 	consumed map[string]int // -> SentAt of the latest such unsubscribe
 	prev     map[string]subCBs
+	// overdrawn: RefClient.Overdrawn as last seen; viaResponse: the consumed
+	// count belonged to the resource of a call/auth/new resource response
+	overdrawn   map[string]int
+	viaResponse map[string]bool
 }
 
 type subCBs struct{ ready, access int }
@@ -67,7 +71,21 @@ func (m *ClientMon) Step(w *World, _ string) {
 				if p.RID == r.Req.RID && p.SentAt < r.Req.SentAt && (p.Action == "subscribe" || p.Action == "get" || p.Action == "new") {
 					m.consumed[c.CID+" "+p.RID] = r.Req.SentAt
 				}
+				// the count taken for the resource of a call/auth/new resource
+				// response that is still being prepared: the unsubscribe released
+				// more than the client was ever told about
+				if p.SentAt < r.Req.SentAt && (p.Action == "call" || p.Action == "auth" || p.Action == "new") && c.Client.Overdrawn[r.Req.RID] > m.overdrawn[c.CID+" "+r.Req.RID] {
+					m.consumed[c.CID+" "+r.Req.RID] = r.Req.SentAt
+					if m.viaResponse == nil {
+						m.viaResponse = map[string]bool{}
+					}
+					m.viaResponse[c.CID+" "+r.Req.RID] = true
+				}
 			}
+			if m.overdrawn == nil {
+				m.overdrawn = map[string]int{}
+			}
+			m.overdrawn[c.CID+" "+r.Req.RID] = c.Client.Overdrawn[r.Req.RID]
 		}
 		m.seenRsp[i] = len(c.Client.Resp)
 		for key, before := range m.prev {
@@ -86,6 +104,9 @@ func (m *ClientMon) Step(w *World, _ string) {
 			if byClient || (before.access > 0 && before.ready == 0) {
 				for _, p := range c.Client.Pending {
 					if p.RID == rid && p.SentAt < w.time && (byClient && p.SentAt < at || !byClient) {
+						m.orphaned[p] = true
+					}
+					if m.viaResponse[key] && p.SentAt < at && (p.Action == "call" || p.Action == "auth" || p.Action == "new") {
 						m.orphaned[p] = true
 					}
 				}
